@@ -19,6 +19,7 @@ THEOREMS = {
         "Dawgs.C15.Props.bidir_reachable_correct",
         "Dawgs.C15.Props.reach_cache_exact_fixed",
         "Dawgs.C15.Props.reach_cache_exact_refuted",
+        "Dawgs.C15.Props.reach_cache_sound_partial",
         "Dawgs.C15.Props.reach_dfs_terminates",
         "Dawgs.C15.Props.reach_answers_exact_fixed",
         "Dawgs.C15.Props.answers_history_independent_fixed",
@@ -83,7 +84,7 @@ SPEC = {
     "fallback_level": "other",
     "lean_modules": ["Dawgs.Props.C15"],
     "theorems_by_module": THEOREMS,
-    "gate_modules": ["Dawgs.Model.C15", "Dawgs.Spec.C15", "Dawgs.Proofs.C15", "Dawgs.Proofs.C15Tarjan", "Dawgs.Proofs.C15Lift", "Dawgs.Props.C15"],
+    "gate_modules": ["Dawgs.Model.C15", "Dawgs.Spec.C15", "Dawgs.Proofs.C15", "Dawgs.Proofs.C15Tarjan", "Dawgs.Proofs.C15Lift", "Dawgs.Proofs.C15Sound", "Dawgs.Props.C15"],
     "suites": [{"name": "c15", "model_suite": "c15fixed" if _mode == "fixed" else "c15", "monitor_suite": "c15mon",
                 "keep_prefix": 2, "thorough_seeds": 2, "shrink_budget": 200}],
     "nontrivial": nontrivial,
@@ -103,12 +104,27 @@ SPEC = {
     "assumptions": ["node ids are uint64 in the tie; Lean model uses Nat",
                     "single-threaded use of ReachabilityCache (the SIEVE locks are C16's subject)",
                     "full Tarjan correctness for ALL graphs is a stated goal (tarjan_correct_full); per case it is established by the verified certificate checker checkSCC run on the implementation's (= model's) output"],
-    "explanation": "",
+    "explanation": "Proved for all inputs (Lean, no sorry): spec BFS = reachability; SCC certificate checker sound; Tarjan terminates and returns a partition "
+                   "on every digraph; bidirectional ComponentReachable exact and terminating on every digraph and direction; componentReachDFS terminates; "
+                   "its answers/cache never contain an unreachable component (both variants); the REPAIRED DFS keeps every cached binding exact and answers "
+                   "exactly for every contract-satisfying cache, capacity and history, hence history independence; lifted to the original graph: C15 for the "
+                   "repaired code follows from the one stated goal tarjan_correct_full, and holds outright for every graph whose Tarjan output passes the "
+                   "verified certificate checker (checked on every case of every run). Refuted by concrete witness for the code as it is: reach_cache_exact, "
+                   "answers_history_independent, C15_full (DESIGN F5; corpus + known_findings.json). Not proved: tarjan_correct_full (each emitted component "
+                   "strongly connected, edges only to earlier components).",
 }
 
 MANIFEST = {
     "category": "proof",
     "technique": "Lean 4 invariant proofs over a transcription of algo/scc.go + algo/reach.go (bidirectional BFS, reach DFS over the proved SIEVE contract, verified SCC certificate checker) + differential correspondence with the Go code + BFS monitor on every answer",
-    "text": "",
-    "note": "",
+    "text": "Lean theorems over ALL digraphs, directions, cache capacities and query histories for a line-by-line transcription of algo/scc.go and "
+            "algo/reach.go over the proved C16 SIEVE contract: verified SCC certificate checker; Tarjan terminates and partitions; bidirectional "
+            "ComponentReachable exact; reach DFS terminates and is sound; for the repaired DFS every cached entry stays exact under every query, every "
+            "eviction choice, every capacity (answers history independent) and C15 reduces to one stated goal (full Tarjan correctness), which the "
+            "certificate checker establishes per case at run time. For the code as it is the full statements are refuted by a two-query witness "
+            "(known finding F5, fix patch proposed). Model = implementation on every generated case (all digraphs <= 4 nodes x capacities, random <= 10 "
+            "nodes x scripts of 6-12 mixed calls), and a BFS monitor judges every implementation answer.",
+    "note": "Trusted: Lean kernel; the transcription (checked by the differential tie incl. cache statistics); roaring bitmaps, deque, CSR container "
+            "(C14) modelled as lists / Nat bit sets. Full Tarjan correctness for all graphs is stated (tarjan_correct_full), not proved; until then "
+            "the level for the SCC part is 'certificate checked per case'. The live code violates the reach-cache part (F5) until hooks/C15-fix.patch lands.",
 }
